@@ -35,12 +35,27 @@ def analyse(fn):
     for a in ast.walk(fn):
         if isinstance(a, ast.Assign) and len(a.targets) == 1 and isinstance(a.targets[0], ast.Name):
             binds.setdefault(a.targets[0].id, []).append(a.value)
-    once = {k: v[0] for k, v in binds.items() if len(v) == 1}
+    # every binding counts (parameters, tuple targets, loop variables, augmented assignments): a name bound more than once has no single
+    # space in a flow-insensitive reading (`phi = phi[rows]` re-binds the selected rows to the name of the full array) - no obligation there
+    nbind = {}
+    for p_ in fn.args.posonlyargs + fn.args.args + fn.args.kwonlyargs:
+        nbind[p_.arg] = nbind.get(p_.arg, 0) + 1
+    for a in ast.walk(fn):
+        tg = a.targets if isinstance(a, ast.Assign) else [a.target] if isinstance(a, (ast.AugAssign, ast.AnnAssign, ast.For, ast.comprehension, ast.NamedExpr)) else []
+        for t in tg:
+            for x in ast.walk(t):
+                if isinstance(x, ast.Name) and isinstance(x.ctx, ast.Store):
+                    nbind[x.id] = nbind.get(x.id, 0) + 1
+    multi = {k for k, c in nbind.items() if c > 1}
+    once = {k: v[0] for k, v in binds.items() if len(v) == 1 and k not in multi}
     idx_space, arr_space = {}, {}
+    UNKNOWN = "?"
 
     def space_of_array(e):
         """space of an array expression: sel(i) if it is (built from) a selection by an index variable, else FULL"""
         if isinstance(e, ast.Name):
+            if e.id in multi:
+                return UNKNOWN
             if e.id in arr_space:
                 return arr_space[e.id]
             return FULL
@@ -48,6 +63,8 @@ def analyse(fn):
             return f"sel({e.slice.id})"
         subs = {space_of_array(x) for x in ast.iter_child_nodes(e) if isinstance(x, ast.expr)}
         subs.discard(FULL)
+        if UNKNOWN in subs:
+            return UNKNOWN
         return next(iter(subs)) if len(subs) == 1 else FULL
     changed = True
     rounds = 0
@@ -65,7 +82,7 @@ def analyse(fn):
                     changed = True
                 else:
                     sp = space_of_array(v)
-                    if sp != FULL:
+                    if sp not in (FULL, UNKNOWN):
                         arr_space[name] = sp
                         changed = True
     probs = []
@@ -75,6 +92,8 @@ def analyse(fn):
             if isinstance(x.value, ast.Name) and x.value.id in idx_space:
                 continue          # i[j] composition
             want, have = idx_space[j], space_of_array(x.value)
+            if UNKNOWN in (want, have):
+                continue
             if want != have:
                 probs.append((x, f"`{j}` numbers the rows of {('the selection ' + want[4:-1]) if want != FULL else 'the whole batch'} but indexes "
                                  f"{('the selection by ' + have[4:-1]) if have != FULL else 'an array of the whole batch'}"))
